@@ -47,7 +47,7 @@ RULE = ("tables of 1-6 rules (depth <= 2) over literal atoms {a, ab, x1, ., +, %
         "percent-escapes (%2F %25 %zz %C3%A9 %00), near-misses (extra/missing/changed character, case change) and "
         "random atom strings x hosts (case, port, look-alike suffix/prefix). A request is non-trivial if at least one "
         "rule of the table matches it or it is a near-miss of one; distinct by (table, host, path).")
-FLOORS = {"quick": 6000, "thorough": 150000}
+FLOORS = {"quick": 6000, "thorough": 600000}
 ASSUMPTIONS = [
     "request paths are ASCII without whitespace or newline (a request line cannot carry others)",
     "patterns have no top-level alternation (excluded by the statement)",
@@ -270,9 +270,9 @@ def shards(tier, seed):
     q = tier == "quick"
     out = []
     for j in range(10):
-        out.append({"kind": "rr", "n": 180 if q else 4000, "j": j})
+        out.append({"kind": "rr", "n": 180 if q else 16000, "j": j})
     for j in range(6):
-        out.append({"kind": "app", "n": 150 if q else 3500, "j": j})
+        out.append({"kind": "app", "n": 150 if q else 14000, "j": j})
     return out
 
 
